@@ -5,6 +5,7 @@ import PqlModel.Props.C05LexStatement
 import PqlModel.Props.C02Semantics
 import PqlModel.Props.C02Statement
 import PqlModel.Props.C05ParseStatement
+import PqlModel.Props.C02EndToEnd
 #print axioms Pql.C05.C05_ends_with_semicolon
 #print axioms Pql.C05.C05_subqueryName_injective
 #print axioms Pql.C05.C05_chain_names_by_index
